@@ -21,3 +21,26 @@ where
 {
     f.write_str(s)
 }
+
+/// S5: `String::push(c)` -> push of the single byte `c`, with the precondition that only ASCII is
+/// pushed *asserted* (so the stub is exact whenever the harness verifies). The real `push` encodes
+/// a symbolic `char` as 1-4 bytes, which makes the string length symbolic.
+pub fn string_push_ascii(s: &mut String, c: char) {
+    assert!((c as u32) < 128, "S5 precondition: only ASCII characters are pushed");
+    unsafe { s.as_mut_vec().push(c as u8) }
+}
+
+/// S6: `VecDeque::grow` -> unreachable (asserted). The harness hands the code a deque whose
+/// capacity (unobservable) already exceeds every length it can reach inside the bound, so growth
+/// never happens; the assertion makes the stub exact whenever the harness verifies. The real
+/// `grow` (realloc + wrap-around fix-up) is otherwise instantiated at every unwound push.
+pub fn vecdeque_grow<T, A: core::alloc::Allocator>(_d: &mut std::collections::VecDeque<T, A>) {
+    assert!(false, "S6 precondition: the pre-reserved deque never grows");
+}
+
+/// S7: `SmallVec::reserve_one_unchecked` (the spill to the heap) -> unreachable (asserted).
+/// Edge lists hold at most four entries per node side (one per base), which is the inline
+/// capacity of `SmallVec4`; the assertion makes the stub exact whenever the harness verifies.
+pub fn smallvec_reserve_one<A: smallvec::Array>(_v: &mut smallvec::SmallVec<A>) {
+    assert!(false, "S7 precondition: the inline capacity of the edge list is never exceeded");
+}
